@@ -4,7 +4,8 @@
    This file only restates the property theorems; proofs are in frame/*Proofs.v. *)
 From Coq Require Import List NArith ZArith Bool.
 From JV Require Import Bytes FrameBase FrameBaseProofs FrameSpec Split SplitProofs Hdr HdrProofs
-  HdrSpec HdrSpecProofs JsonScan JsonScanProofs RawJson RawJsonProofs FrameMore Chunked ChunkedProofs ChunkedHdr ChunkedHdrProofs HdrMore RawJsonMore.
+  HdrSpec HdrSpecProofs JsonScan JsonScanProofs RawJson RawJsonProofs FrameMore Chunked ChunkedProofs ChunkedHdr ChunkedHdrProofs HdrMore RawJsonMore RawJsonGrammar.
+From JV Require Json.
 From RecordUpdate Require Import RecordUpdate.
 From JV Require Import Msg SrvModel SrvC12.
 Import ListNotations.
@@ -331,6 +332,24 @@ Theorem c12_rawjson_eventually_fails : forall n s,
   exists e rest, forall m, (n <= m)%nat -> call_n RawJson.recv m None s = Err e (Some e) rest.
 Proof. exact rawjson_eventually_fails. Qed.
 Print Assumptions c12_rawjson_eventually_fails.
+
+(* soundness against the INDEPENDENT JSON grammar of json/Json.v (the recursive-descent parser
+   behind json.Valid, written for the wire properties): every non-empty record Recv returns is
+   valid JSON ... *)
+Theorem c12_rawjson_recv_valid : forall s r rest,
+  RawJson.recv None s = Ok r None rest -> r <> [] -> Json.valid r = true.
+Proof. exact rawjson_recv_valid. Qed.
+Print Assumptions c12_rawjson_recv_valid.
+
+(* ... and in general: what one Recv consumes is white space followed by exactly one value of that
+   grammar, without surrounding white space (tight_at 0), which is the record unless it is null *)
+Theorem c12_rawjson_recv_grammar : forall st s r st' rest,
+  RawJson.recv st s = Ok r st' rest ->
+  exists j raw, s = j ++ raw ++ rest /\ all_ws j /\
+                Json.valid raw = true /\ Json.tight_at 0 raw = true /\
+                r = (if is_null raw then [] else raw).
+Proof. exact rawjson_recv_grammar. Qed.
+Print Assumptions c12_rawjson_recv_grammar.
 
 (* ---- the server and a final record delivered together with io.EOF ---- *)
 
